@@ -10,6 +10,8 @@ import Yabgp.Driver.RestOps
 import Yabgp.Driver.EvfOps
 import Yabgp.Driver.XcOps
 import Yabgp.Driver.TlvOps
+import Yabgp.Driver.C08Ops
+import Yabgp.Driver.C08XcOps
 
 namespace Yabgp.Glue
 open Lean (Json)
@@ -29,6 +31,11 @@ def dispatch (st : DState) (j : Json) : Except String (DState × Json) := do
   if Yabgp.RibGlue.isRibOp op then
     let (r, out) ← Yabgp.RibGlue.dispatchRib st.rib j
     return ({ st with rib := r }, out)
+  if op == "c08.extcomm.construct" then
+    return (st, ← Yabgp.C08XcGlue.dispatchC08Xc j)
+  if op.startsWith "c08." || op.startsWith "spec.walk" then
+    let (_, r) ← Yabgp.C08Glue.dispatchC08 {} j
+    return (st, r)
   if Yabgp.TlvGlue.isTlvOp op then
     let (t', r) ← Yabgp.TlvGlue.dispatchTlv st.tlv j
     return ({ st with tlv := t' }, r)
@@ -55,7 +62,7 @@ def dispatch (st : DState) (j : Json) : Except String (DState × Json) := do
       pure (st, updResultJson (parseUpdate (getBoolD j "asn4" false) (getBoolD j "addpath" false) b))
   | "upd.construct" => do
       let m ← readUpdMsg (← j.getObjVal? "msg")
-      pure (st, optHex (constructUpdate (getBoolD j "asn4" false) (getBoolD j "addpath" false) m))
+      pure (st, optHex (constructUpdateR (getBoolD j "asn4" false) (getBoolD j "addpath" false) m))
   | "attr.parse" => do
       let b ← getHex j "hex"
       let code ← getNat j "code"
@@ -71,7 +78,7 @@ def dispatch (st : DState) (j : Json) : Except String (DState × Json) := do
                 | none => raise)
   | "pfx.construct" => do
       let ps ← (← getArr j "prefixes").mapM readPfx
-      pure (st, optHex (constructPrefixV4 (getBoolD j "addpath" false) ps))
+      pure (st, optHex (constructPrefixV4R (getBoolD j "addpath" false) ps))
   | "open.parse" => do
       pure (st, openResultJson (parseOpen (← getHex j "hex")))
   | "open.construct" => do
